@@ -606,7 +606,7 @@ func ruleErrChk(c *Ctx, r *RuleResult, fnName, sinkParam string) {
 func init() {
 	register(&propDef{
 		id:          "C20",
-		explanation: "Decides the fault clause for every failure position and the domain of the weight calls: ERRCHK (in tsp.LIB every call that writes to w directly, and every Flush of a buffering wrapper built around w, has its error result examined by an `!= nil` test; on the failure edge every reachable return carries that error (or a wrap of it), and no return is reachable before the test; writes into the text/tabwriter wrapper are exempt because tabwriter holds rows until Flush), DOMAIN (E-PROVE shows 0 <= j < i < n at every call weights(i, j), and weights is used in no other way). Does not decide the literal header text or the row layout.",
+		explanation: "Decides the fault clause for every failure position and the domain of the weight calls: ERRCHK (in tsp.LIB every call that writes to w directly, and every Flush of a buffering wrapper built around w, has its error result examined by an `!= nil` test; on the failure edge every reachable return carries that error (or a wrap of it), and no return is reachable before the test; writes into the text/tabwriter wrapper are exempt because tabwriter holds rows until Flush), DOMAIN (E-PROVE shows 0 <= j < i < n at every call weights(i, j), and weights is used in no other way), SIGNCONV (no signed value - a weight - is converted to an unsigned type without a proof that it is not negative). Does not decide the literal header text or the row layout.",
 		notDecided:  []string{"the exact TSPLIB header text, DIMENSION value and row layout (pinned by the golden-file test)", "that a partial write with a nil error from a non-conforming io.Writer is detected"},
 		assumptions: []string{"text/tabwriter buffers lines of two or more cells until Flush (a single-cell line and a form feed are written out at once: such writes are held to the rule for direct writes) and returns the underlying write error from Flush", "text formatted from non-constant, non-numeric operands contains no tab and no line break", "io.WriteString / fmt.Fprintf return a non-nil error whenever the underlying Write does"},
 		run: func(c *Ctx, tier string) []*RuleResult {
@@ -614,7 +614,7 @@ func init() {
 			ruleErrChk(c, e, "tsp.LIB", "w")
 			gl := ruleGlobalIn(c, "tsp")
 			gl.Doc = "the writer keeps no state between calls: no function of package tsp writes or hands out a package-level variable (a pooled or cached output buffer makes one call's output depend on an earlier, possibly failed, call)"
-			return []*RuleResult{e, ruleDomain(c, "tsp.LIB", "weights", "n"), gl}
+			return []*RuleResult{e, ruleDomain(c, "tsp.LIB", "weights", "n"), gl, ruleSignConv(c, "tsp")}
 		},
 		controls: func(ctl *Ctx) []*RuleResult {
 			var out []*RuleResult
@@ -735,4 +735,43 @@ func analyseSticky(c *Ctx, ptrT types.Type, wfield string) stickyInfo {
 		info.why = "its Write does not record the underlying error in a field"
 	}
 	return info
+}
+
+// ruleSignConv: a signed value that is converted to an unsigned type is printed, compared and
+// stored as a different number when it is negative (uint64(-2) = 18446744073709551614); weights
+// are arbitrary ints, so such a conversion must be of a value proved not to be negative.
+func ruleSignConv(c *Ctx, pkgRel string) *RuleResult {
+	r := &RuleResult{Rule: "SIGNCONV", Doc: "no signed value is converted to an unsigned type unless it is proved not to be negative (weights may be negative)", MinInst: 0}
+	for _, fn := range c.Funcs {
+		p := fnPkg(fn)
+		if p == nil || p.Pkg.Path() != c.Mod+"/"+pkgRel || fn.Synthetic != "" || fn.Blocks == nil {
+			continue
+		}
+		var P *Prover
+		for _, b := range fn.Blocks {
+			for _, in := range b.Instrs {
+				cv, ok := in.(*ssa.Convert)
+				if !ok || !isInt(cv.Type()) || !isInt(cv.X.Type()) || isUnsigned(cv.X.Type()) || !isUnsigned(cv.Type()) {
+					continue
+				}
+				if _, isK := cv.X.(*ssa.Const); isK {
+					continue
+				}
+				if P == nil {
+					P = NewProver(c, fn)
+				}
+				src := c.srcAt(cv.Pos())
+				if src == "" {
+					src = valName(cv)
+				}
+				r.inst("%s: %s", c.short(fn), src)
+				ok2 := P.Prove(P.poly(cv.X).scale(-1), b)
+				r.oblig(ok2)
+				if !ok2 {
+					r.find(c.short(fn)+":signed to unsigned "+src, c.instrPos(cv), "%s converts %s (%s) to %s without establishing that it is not negative: a negative weight is written as a huge positive number", c.short(fn), src, cv.X.Type(), cv.Type())
+				}
+			}
+		}
+	}
+	return r
 }
